@@ -12,6 +12,7 @@ pub mod c10;
 pub mod c11;
 pub mod c12;
 pub mod c13;
+pub mod c14;
 pub mod c15;
 pub mod c16;
 pub mod c19;
@@ -30,6 +31,7 @@ pub fn run(ctx: &Ctx) -> Option<Report> {
         "C11" => Some(c11::run(ctx)),
         "C12" => Some(c12::run(ctx)),
         "C13" => Some(c13::run(ctx)),
+        "C14" => Some(c14::run(ctx)),
         "C15" => Some(c15::run(ctx)),
         "C16" => Some(c16::run(ctx)),
         "C19" => Some(c19::run(ctx)),
@@ -41,6 +43,7 @@ pub fn replay(id: &str, doc: &Value) -> i32 {
     let case = &doc["case"];
     match id {
         "C13" => c13::replay(case),
+        "C14" => c14::replay(case),
         _ if !case["e2e"].is_null() => crate::e2e::replay(case),
         "C06" => c06::replay(case),
         "C09" => c09::replay(case),
